@@ -68,6 +68,8 @@ OPS = {
     "include-latin1": ("```{include} uni.md\n:encoding: latin-1\n```\n", {}),
     "include-utf8": ("```{include} uni.md\n```\n\n```{include} uni.md\n:literal:\n```\n", {}),
     "deprecated-ext": ("![a](b.png){width=10px}\n", {"myst_enable_extensions": ["attrs_image"]}),
+    "html5-demo-anchors": ("# T\n\n## Sub\n\n[](#sub) ~~s~~\n", {"__html5_demo__": {"myst_heading_anchors": 2, "myst_enable_extensions": ["strikethrough"]}}),
+    "html5-demo-plain": ("# T\n\n## Sub\n\n[](#sub) ~~s~~\n", {"__html5_demo__": {}}),
     "unknown-lexer": ("```nosuchlang\nx = 1\n```\n\n```{code-block} nosuchlang2\ny\n```\n", {}),
     "tokenizer-soup": ("```{note}\n:class: \"a\\\n  b\"\n:name: |\n  x\n\nbody\n```\n", {}),
 }
@@ -81,6 +83,13 @@ def docutils_run(scratch, text, over):
     ws = io.StringIO()
     st = {"warning_stream": ws, "report_level": 2, "halt_level": 5, "myst_enable_extensions": EXT,
           "myst_inventories": {"k": ["http://x", str(scratch / "o.inv")]}, "myst_heading_anchors": 2, "_disable_config": True}
+    if "__html5_demo__" in over:
+        from myst_parser.parsers.docutils_ import to_html5_demo
+
+        try:
+            return to_html5_demo(text, warning_stream=ws, report_level=2, halt_level=5, **over["__html5_demo__"]) + "\n" + ws.getvalue()
+        except BaseException as exc:
+            return "EXC " + repr(exc)
     st.update(over)
     if st.get("myst_inventories") == "@OTHERBASE@":
         st["myst_inventories"] = {"k": ["https://other.example/base/", str(scratch / "o.inv")]}
